@@ -1,11 +1,13 @@
 package relaysim
 
 import (
+	"bytes"
 	"context"
 	"encoding/json"
 	"errors"
 	"fmt"
 	"regexp"
+	"sort"
 	"time"
 
 	"github.com/attestantio/go-eth2-client/spec/bellatrix"
@@ -86,6 +88,9 @@ type Doc struct {
 	ViaVouch bool          `json:"via_vouch,omitempty"`
 	Latency  time.Duration `json:"lat,omitempty"`
 	Raw      string        `json:"raw,omitempty"` // Kind "raw": served verbatim (round trip)
+	// Shape (Kind "shaped"): a v1/v2 document with JSON nodes replaced by
+	// null, empty containers, wrong types; whether vouch accepts it is open.
+	Shape []ShapeMut `json:"shape,omitempty"`
 	// Good is set for documents that are valid by the documentation.
 }
 
@@ -360,6 +365,8 @@ func (d *Doc) Render(w *World) ([]byte, error) {
 		return append(g, []byte(`}}<html>502 Bad Gateway</html>`)...), nil
 	case "truncated":
 		return b[:len(b)*2/3], nil
+	case "shaped":
+		return applyShape(b, d.Shape), nil
 	}
 	return b, nil
 }
@@ -435,7 +442,9 @@ func (s *Source) Fetch(ctx context.Context, url string) ([]byte, error) {
 	if d.Latency > 0 {
 		simrt.Probe("fault:fetch-slow")
 	}
-	if !d.Good() && d.Kind != "raw" {
+	if !d.Good() && d.Kind != "raw" && d.Kind != "shaped" {
+		simrt.Probe("fault:fetch-" + d.Kind)
+	} else if d.Kind == "shaped" {
 		simrt.Probe("fault:fetch-" + d.Kind)
 	}
 	simrt.Crit(func() { rec.EndStep, rec.EndT, rec.Delivered = simrt.Step(), simrt.Now(), true })
@@ -487,4 +496,83 @@ func (s *Source) InForce(tc, tr time.Duration) []*Doc {
 		}
 	}
 	return out
+}
+
+// ---------------------------------------------------------------------------
+// odd-shaped documents (C16): a usable document with some JSON nodes replaced
+
+// ShapeMut replaces (or deletes) the Node-th node of the rendered JSON tree.
+type ShapeMut struct {
+	Node int `json:"node"`
+	Repl int `json:"repl"`
+}
+
+// ShapeRepls are the replacement values; "" deletes the node from its parent.
+var ShapeRepls = []string{`null`, `null`, `null`, `[]`, `{}`, `""`, `0`, `-1`, `"0x"`, `[null]`, `{"x":null}`, `true`, `"1"`, `18446744073709551616`, ``}
+
+type jsonSlot struct {
+	set func(v any)
+	del func()
+}
+
+func jsonSlots(v any, out *[]jsonSlot) {
+	switch t := v.(type) {
+	case map[string]any:
+		keys := make([]string, 0, len(t))
+		for k := range t {
+			keys = append(keys, k)
+		}
+		sort.Strings(keys)
+		for _, k := range keys {
+			k := k
+			*out = append(*out, jsonSlot{set: func(v any) { t[k] = v }, del: func() { delete(t, k) }})
+			jsonSlots(t[k], out)
+		}
+	case []any:
+		for i := range t {
+			i := i
+			*out = append(*out, jsonSlot{set: func(v any) { t[i] = v }, del: func() { t[i] = nil }})
+			jsonSlots(t[i], out)
+		}
+	}
+}
+
+// applyShape applies the mutations in order; a mutation that cannot apply is skipped.
+func applyShape(b []byte, muts []ShapeMut) []byte {
+	dec := json.NewDecoder(bytes.NewReader(b))
+	dec.UseNumber()
+	var tree any
+	if err := dec.Decode(&tree); err != nil {
+		return b
+	}
+	for _, m := range muts {
+		var slots []jsonSlot
+		jsonSlots(tree, &slots)
+		if len(slots) == 0 {
+			break
+		}
+		s := slots[m.Node%len(slots)]
+		r := ShapeRepls[m.Repl%len(ShapeRepls)]
+		if r == "" {
+			s.del()
+		} else {
+			s.set(json.RawMessage(r))
+			// re-decode so that later mutations see the new subtree
+			nb, err := json.Marshal(tree)
+			if err != nil {
+				return b
+			}
+			dec := json.NewDecoder(bytes.NewReader(nb))
+			dec.UseNumber()
+			tree = nil
+			if err := dec.Decode(&tree); err != nil {
+				return nb
+			}
+		}
+	}
+	nb, err := json.Marshal(tree)
+	if err != nil {
+		return b
+	}
+	return nb
 }
